@@ -134,7 +134,7 @@ PROPS = {
         "rules": [shape.rule_shape, shrinking.rule_chirality, shrinking.rule_samesrc, shrinking.rule_declsrc, shrinking.rule_idcmp, shrinking.rule_cutvar, shrinking.rule_cutkind, enums.rule_enum_maps({"core2axcut"}),
                   fresh.rule_fresh, fresh.rule_maxid, fresh.rule_counter, fresh.rule_eta, traversal.rule_trav(["core2axcut::shrinking::Shrinking", "scc_core_lang::traits::substitution::SubstVar",
                                                                           "scc_core_lang::traits::typed_free_vars::TypedFreeVars"]),
-                  inputs.rule_useall_for(["core2axcut"], 35), traversal.rule_siblings, sharing.rule_sharepath, enums.rule_sort_selfmaps],
+                  inputs.rule_useall_for(["core2axcut"], 35), traversal.rule_siblings, sharing.rule_sharepath, enums.rule_sort_selfmaps, sharing.rule_liftstore, labels.rule_label],
         "text": "Structural necessary conditions of shrinking: all 18 well-typed (producer, consumer) cut shapes are handled before the "
                 "wildcard (R-SHAPE); the chirality collapse folds to the documented 6-row table (R-CHI, abstract interpretation of "
                 "shrink_binding); lifted definitions get exactly the free variables, in one order, on both sides (R-SAMESRC); generated "
